@@ -352,7 +352,55 @@ fn fault_case<K: Kern<D>, const D: usize>(cx: &mut Ctx, r: &mut Rng, idx: usize)
             Guarded::Done((bad, v)) => {
                 let post = project_raw(&mut cx.tr, &bad);
                 let classes: Vec<String> = plan.iter().map(|f| variant(f)).collect();
-                cx.tr.emit("Faulted", 1, json!({"faults": applied, "classes": classes, "clean": plan.iter().all(|f| matches!(f, Fault::None))}), v, Some(post), false);
+                cx.tr.emit("Faulted", 1, json!({"faults": applied, "classes": classes, "clean": plan.iter().all(|f| matches!(f, Fault::None))}), v, Some(post.clone()), false);
+                // the public maintenance calls of Tds on the faulted state (each on its own copy)
+                if plan.len() == 1 {
+                    for op in ["remove_duplicate_cells", "assign_incident_cells", "is_connected", "star_of_each_vertex"] {
+                        let relevant = match (op, &plan[0]) {
+                            ("remove_duplicate_cells", Fault::DuplicateCell(_) | Fault::None) => true,
+                            ("assign_incident_cells", Fault::StaleIncident(_) | Fault::WrongIncident(_) | Fault::None | Fault::MissingCellClean(_)) => true,
+                            ("is_connected", Fault::MissingCellClean(_) | Fault::CutOffCell(_) | Fault::None | Fault::GlueVertices(..)) => true,
+                            ("star_of_each_vertex", Fault::None | Fault::MissingCellClean(_) | Fault::CutOffCell(_)) => true,
+                            _ => false,
+                        };
+                        if !relevant {
+                            continue;
+                        }
+                        let mut t2 = bad.tds().clone();
+                        let g3 = cx.tr.guard(op, || -> (String, i64, Vec<Value>) {
+                            match op {
+                                "remove_duplicate_cells" => match t2.remove_duplicate_cells() {
+                                    Ok(n) => ("Ok".into(), n as i64, vec![]),
+                                    Err(_) => ("Err".into(), -1, vec![]),
+                                },
+                                "assign_incident_cells" => match t2.assign_incident_cells() {
+                                    Ok(()) => ("Ok".into(), 0, vec![]),
+                                    Err(_) => ("Err".into(), -1, vec![]),
+                                },
+                                "is_connected" => ("Ok".into(), i64::from(t2.is_connected()), vec![]),
+                                _ => ("Ok".into(), 0, vec![]),
+                            }
+                        });
+                        match g3 {
+                            Guarded::Done((kind, n, _)) => {
+                                let after = Dt::<K, D>::from_tds_with_topology_guarantee(t2, K::default(), g);
+                                let mut stars: Vec<Value> = Vec::new();
+                                if op == "star_of_each_vertex" {
+                                    for (vk, vv) in after.tds().vertices() {
+                                        let mut cs: Vec<i64> = after.tds().find_cells_containing_vertex_by_key(vk).iter().map(|k| cx.tr.ckey_id(after.tds(), *k)).collect();
+                                        cs.sort_unstable();
+                                        stars.push(json!({"v": cx.tr.vid(vv.uuid()), "cells": cs}));
+                                    }
+                                }
+                                let p2 = project_raw(&mut cx.tr, &after);
+                                cx.tr.emit("Maint", 1, json!({"op": op, "pre": post.clone()}), json!({"kind": kind, "n": n, "stars": stars}), Some(p2), false);
+                            }
+                            Guarded::Panicked(msg) => {
+                                cx.tr.emit("Maint", 1, json!({"op": op, "pre": post.clone()}), json!({"kind": "Panic", "msg": msg, "n": -1, "stars": []}), None, true);
+                            }
+                        }
+                    }
+                }
             }
             Guarded::Panicked(msg) => {
                 cx.tr.emit("Faulted", 1, json!({"faults": applied, "classes": [], "clean": false}), json!({"kind":"Panic","msg":msg}), None, true);
